@@ -131,6 +131,11 @@ func (r *Run) Finish() Summary {
 				if got == p.Want {
 					continue
 				}
+				if strings.HasSuffix(got, " kfskip") && strings.HasPrefix(p.Want, strings.TrimSuffix(got, "kfskip")) {
+					// the diff agrees; the patch outcome is not tied in this known-finding class (see Driver/Ops.lean)
+					sum.Relations["corr-diff-only:"+p.Rel]++
+					continue
+				}
 				if strings.Contains(got, "okswallow ") {
 					// keyed-member error swallowed (KF-C08-swallow): the implementation's result is
 					// not compared, only that it also reports success
